@@ -120,6 +120,8 @@ def scenario(exe, shim, root, seed, stats):
         if r.rc == 0:
             tag = '[short-parity-v3]' if trig in ('short-parity', 'empty-parity') and (hs != 16 or splits > 1) else '[%s]' % trig
             out.append(('(%s) %s sync is NOT refused with trigger %s (exit 0)' % (cfg, tag, desc), r.out[-600:]))
+            if tag == '[short-parity-v3]':
+                continue      # the recorded known finding: go on with the other triggers of this array
             break
         if after != before:
             out.append(('(%s) [%s] refused sync altered a content or parity file (trigger %s)' % (cfg, trig, desc), r.out[-600:]))
@@ -137,6 +139,26 @@ def scenario(exe, shim, root, seed, stats):
     a.destroy()
     return out or None
 
+def directed_short_parity_v3(exe, root):
+    """KNOWN FINDING C14-short-parity-v3, replayed on every run: 2 disks, 1 parity, hashsize 8 (version-3 content),
+    parity truncated to half: sync must refuse; returns the violation text or None"""
+    rng = e2e.Rng(77)
+    a = e2e.Arr(root, exe, ndisks=2, nparity=1, ncontent=1, hashsize=8)
+    s = sim.Sim(a, rng.fork(), weird_names=False)
+    s.populate(4)
+    if s.sync().rc != 0:
+        a.destroy(); return None
+    pf = a.parity_files(0)[0]
+    size = os.path.getsize(pf)
+    with open(pf, 'r+b') as f: f.truncate((size // a.block // 2) * a.block)
+    before = protected_digest(a)
+    r = a.cmd('sync')
+    txt = None
+    if r.rc == 0:
+        txt = '[short-parity-v3] directed replay: parity file truncated from %d to %d bytes on an array with hashsize 8 (version-3 content): sync is NOT refused (exit 0)' % (size, (size // a.block // 2) * a.block)
+    a.destroy()
+    return txt
+
 def main(tier, seed):
     chk = vlib.Check('C14', 'other', tier, seed)
     chk.assumptions = ['the lock is the kernel`s flock on <content>.lock; "another command running" is a real first snapraid stopped (SIGSTOP via the shim) while it holds the lock',
@@ -153,6 +175,10 @@ def main(tier, seed):
         exe = vlib.build_snapraid(); shim = vlib.build_shim()
     except vlib.BuildError as e:
         chk.violation('build of /repo failed: ' + str(e)[:300], str(e), False, 'build'); chk.finish()
+    dv = directed_short_parity_v3(exe, os.path.join(vlib.scratch(), 'dsp'))
+    chk.extra['directed_C14_short_parity_v3'] = dv or 'not reproduced'
+    if dv:
+        chk.violation('C14 ' + dv, dv, True, 'directed_short_parity')
     n = 24 if tier == 'quick' else 200
     stats = {'triggers': {}, 'refusals': 0, 'lock_not_stopped': 0}
     def job(i):
@@ -162,8 +188,7 @@ def main(tier, seed):
     k = 0
     seen = set()
     for r in res:
-        if r:
-            text, body = r[0]
+        for text, body in (r or []):
             key = text.split('[')[1].split(']')[0] if '[' in text else text[:30]
             if key in seen: continue
             seen.add(key)
